@@ -42,11 +42,11 @@ import toml
 _QUOTED_STR_REGEX = re.compile(r'(^\"(?:\\.|[^\"\\])*\"$)|'
                                r'(^\'(?:\\.|[^\'\\])*\'$)')
 
-_TRIPLE_QUOTED_STR_REGEX = re.compile(r'(^\"\"\"(\s+)?(([^\"]|\"([^\"]|\"[^\"]))*(\"\"?)?)?(\s+)?(?:\\.|[^\"\\])\"\"\"$)|'
+_TRIPLE_QUOTED_STR_REGEX = re.compile(r'(^\"\"\"(?:(\s+)?(([^\"]|\"([^\"]|\"[^\"]))*(\"\"?)?)?(\s+)?(?:\\.|[^\"\\]))?\"\"\"$)|'
                                                                                                  # Unescaped quotes at the end of a string generates 
                                                                                                  # "SyntaxError: EOL while scanning string literal", 
                                                                                                  # so we don't account for those kind of strings as quoted.
-                                      r'(^\'\'\'(\s+)?(([^\']|\'([^\']|\'[^\']))*(\'\'?)?)?(\s+)?(?:\\.|[^\'\\])\'\'\'$)', flags=re.DOTALL)
+                                      r'(^\'\'\'(?:(\s+)?(([^\']|\'([^\']|\'[^\']))*(\'\'?)?)?(\s+)?(?:\\.|[^\'\\]))?\'\'\'$)', flags=re.DOTALL)
 
 @functools.lru_cache(maxsize=256, typed=True)
 def is_quoted(text:str, triple:bool=True) -> bool:
